@@ -72,7 +72,7 @@ def gen_cases(rng, tier, scale):
     for pre_ in (_t('v', False, False, True, 'V'), _t('v', False, False, False, 'V'), _t('v', False, True, True, 'V')):
         for com in ('!c', '!-- c --', '! -- c --'):
             for mid in ('', ' '):
-                for after in (' x', '  ', ' \n y', 'x', '\t{{v}}'):
+                for after in (' x', '  ', ' \n y', 'x', '\t{{v}}', ''):
                     for post in (None, _t('v', False, True, False, 'V')):
                         items = [_x('a '), pre_] + ([_x(mid)] if mid else []) + [_t(com, True)]
                         if after.endswith('{{v}}'):
